@@ -24,15 +24,15 @@ CFG = {
     "streams": [
         {"mod": "extras", "component": "speedtest", "driver": "speedtest", "n": {"quick": 3000, "thorough": 100000}},
         # the decoders owned by other properties, re-run here with their malformed/mutated streams (panic oracle + differential)
-        {"mod": "core", "component": "frag", "driver": "frag", "n": {"quick": 3000, "thorough": 100000}},
-        {"mod": "core", "component": "defrag", "driver": "defrag", "reset_re": "^reset", "n": {"quick": 6000, "thorough": 200000}},
-        {"mod": "core", "component": "frame", "driver": "frame", "n": {"quick": 3000, "thorough": 100000}},
-        {"mod": "extras", "component": "salamander", "driver": "salamander", "n": {"quick": 1500, "thorough": 20000}},
-        {"mod": "extras", "component": "sniff", "driver": "sniff", "n": {"quick": 1500, "thorough": 40000}},
-        {"mod": "extras", "component": "punchcodec", "driver": "punchcodec", "n": {"quick": 2000, "thorough": 100000}},
-        {"mod": "extras", "component": "punchconn", "driver": "punchconn", "reset_re": "^(reset|conc)", "n": {"quick": 1500, "thorough": 50000}},
+        {"mod": "core", "component": "frag", "driver": "frag", "compare": "panic-only", "n": {"quick": 3000, "thorough": 100000}},
+        {"mod": "core", "component": "defrag", "driver": "defrag", "reset_re": "^reset", "compare": "panic-only", "n": {"quick": 6000, "thorough": 200000}},
+        {"mod": "core", "component": "frame", "driver": "frame", "compare": "panic-only", "n": {"quick": 3000, "thorough": 100000}},
+        {"mod": "extras", "component": "salamander", "driver": "salamander", "compare": "panic-only", "n": {"quick": 1500, "thorough": 20000}},
+        {"mod": "extras", "component": "sniff", "driver": "sniff", "compare": "panic-only", "n": {"quick": 1500, "thorough": 40000}},
+        {"mod": "extras", "component": "punchcodec", "driver": "punchcodec", "compare": "panic-only", "n": {"quick": 2000, "thorough": 100000}},
+        {"mod": "extras", "component": "punchconn", "driver": "punchconn", "reset_re": "^(reset|conc)", "compare": "panic-only", "n": {"quick": 1500, "thorough": 50000}},
         {"kind": "gotest", "mod": "extras", "pkg": "./obfs", "run": "^TestVerifGecko$", "component": "gecko", "driver": "gecko",
-         "reset_re": "^reset", "n": {"quick": 1500, "thorough": 60000}, "timeout": 3000},
+         "reset_re": "^reset", "compare": "panic-only", "n": {"quick": 1500, "thorough": 60000}, "timeout": 3000},
     ],
     "rule": "per decoder: structured mostly-valid inputs from the repo's own encoders mutated at field boundaries, truncations, "
             "random bytes, each under a random chunking; inputs are copied into exact-size allocations (cap == len) so an over-read "
